@@ -15,7 +15,6 @@ import (
 
 	"github.com/plgd-dev/go-coap/v3/message"
 	"github.com/plgd-dev/go-coap/v3/message/codes"
-	udpclient "github.com/plgd-dev/go-coap/v3/udp/client"
 
 	"verifharness/internal/conns"
 	"verifharness/internal/hooks"
@@ -29,10 +28,11 @@ type Act struct {
 }
 
 type Stim struct {
-	T     int   `json:"t"`
-	MaxR  int   `json:"maxr"`
-	AT    int   `json:"at"`
-	Steps []Act `json:"steps"`
+	Mode  string `json:"mode"` // mem (default) | dial | server
+	T     int    `json:"t"`
+	MaxR  int    `json:"maxr"`
+	AT    int    `json:"at"`
+	Steps []Act  `json:"steps"`
 }
 
 type Copy struct {
@@ -53,6 +53,7 @@ type Ev struct {
 }
 
 type Trace struct {
+	Mode   string `json:"mode"`
 	T      int    `json:"t"`
 	MaxR   int    `json:"maxr"`
 	AT     int    `json:"at"`
@@ -66,19 +67,18 @@ type Trace struct {
 }
 
 func runOne(st Stim) Trace {
-	tr := Trace{T: st.T, MaxR: st.MaxR, AT: st.AT, Ev: []Ev{}, Copies: []Copy{}}
-	u := conns.NewUDP(func(cfg *udpclient.Config) {
-		cfg.TransmissionAcknowledgeTimeout = time.Duration(st.AT) * time.Second
-		cfg.TransmissionMaxRetransmit = uint32(st.MaxR)
-		cfg.TransmissionNStart = 1
-	})
-	defer u.Close()
+	mode := st.Mode
+	if mode == "" {
+		mode = "mem"
+	}
+	tr := Trace{T: st.T, Mode: mode, MaxR: st.MaxR, AT: st.AT, Ev: []Ev{}, Copies: []Copy{}}
+	var u *link
 	var mu sync.Mutex
 	var first []byte
 	curTick, curEv := 0, 0
 	var mid int32
 	tok := []byte{0xD1, 0x06}
-	u.Sess.OnWrite = func(raw []byte) {
+	onWrite := func(raw []byte) {
 		mu.Lock()
 		defer mu.Unlock()
 		d, err := memnet.Parse(raw)
@@ -96,6 +96,8 @@ func runOne(st Stim) Trace {
 			tr.Others++
 		}
 	}
+	u = newLink(mode, st.MaxR, st.AT, onWrite)
+	defer u.close()
 	// "deadline": the caller's context carries a deadline, t seconds from now (virtual ticks are seconds too)
 	dlSec := 0
 	for _, a := range st.Steps {
@@ -132,18 +134,18 @@ func runOne(st Stim) Trace {
 		occDone = make(chan struct{})
 		go func() {
 			defer close(occDone)
-			oreq, err := u.CC.NewGetRequest(context.Background(), "/occ")
+			oreq, err := u.cc.NewGetRequest(context.Background(), "/occ")
 			if err != nil {
 				return
 			}
 			oreq.SetToken(occTok)
-			if resp, err := u.CC.Do(oreq); err == nil {
-				u.CC.ReleaseMessage(resp)
+			if resp, err := u.cc.Do(oreq); err == nil {
+				u.cc.ReleaseMessage(resp)
 			}
-			u.CC.ReleaseMessage(oreq)
+			u.cc.ReleaseMessage(oreq)
 		}()
 		ok := hooks.WaitFor(conns.WD, func() bool {
-			for _, raw := range u.Sess.Out(0) {
+			for _, raw := range u.out() {
 				if d, err := memnet.Parse(raw); err == nil && bytes.Equal(d.Token, occTok) {
 					occMID = d.MID
 					return true
@@ -156,14 +158,14 @@ func runOne(st Stim) Trace {
 		}
 	}
 	go func() {
-		req, err := u.CC.NewGetRequest(ctx, "/r")
+		req, err := u.cc.NewGetRequest(ctx, "/r")
 		if err != nil {
 			resCh <- result{}
 			return
 		}
 		req.SetToken(tok)
-		resp, err := u.CC.Do(req)
-		u.CC.ReleaseMessage(req)
+		resp, err := u.cc.Do(req)
+		u.cc.ReleaseMessage(req)
 		if err != nil {
 			resCh <- result{}
 			return
@@ -179,7 +181,7 @@ func runOne(st Stim) Trace {
 		if early != 0 {
 			rec.Die("c06: the request under test did not wait behind NSTART")
 		}
-		_ = u.Inject(memnet.Build(message.Acknowledgement, int(codes.Content), occMID, occTok, nil, []byte("O")))
+		u.inject(memnet.Build(message.Acknowledgement, int(codes.Content), occMID, occTok, nil, []byte("O")))
 		<-occDone
 	}
 	if !hooks.WaitFor(conns.WD, func() bool { mu.Lock(); defer mu.Unlock(); return len(tr.Copies) == 1 }) {
@@ -204,7 +206,7 @@ func runOne(st Stim) Trace {
 	snap := func(a Act) Ev {
 		// give the caller goroutine a moment to return if it is going to
 		hooks.WaitFor(2*time.Millisecond, func() bool { poll(); return false })
-		vs := u.CC.VerifState()
+		vs := u.cc.VerifState()
 		mu.Lock()
 		n := len(tr.Copies)
 		mu.Unlock()
@@ -220,16 +222,17 @@ func runOne(st Stim) Trace {
 		mu.Unlock()
 		switch a.A {
 		case "tick":
-			u.CC.CheckExpirations(base.Add(time.Duration(a.T)*time.Second - 50*time.Millisecond))
+			u.cc.CheckExpirations(base.Add(time.Duration(a.T)*time.Second - 50*time.Millisecond))
+			u.settle()
 		case "ack":
-			_ = u.Inject(memnet.Build(message.Acknowledgement, int(codes.Empty), mid, nil, nil, nil))
+			u.inject(memnet.Build(message.Acknowledgement, int(codes.Empty), mid, nil, nil, nil))
 		case "rst":
-			_ = u.Inject(memnet.Build(message.Reset, int(codes.Empty), mid, nil, nil, nil))
+			u.inject(memnet.Build(message.Reset, int(codes.Empty), mid, nil, nil, nil))
 		case "piggy":
-			_ = u.Inject(memnet.Build(message.Acknowledgement, int(codes.Content), mid, tok, nil, []byte("P")))
+			u.inject(memnet.Build(message.Acknowledgement, int(codes.Content), mid, tok, nil, []byte("P")))
 		case "sep":
 			nextMID++
-			_ = u.Inject(memnet.Build(message.NonConfirmable, int(codes.Content), nextMID, tok, nil, []byte("S")))
+			u.inject(memnet.Build(message.NonConfirmable, int(codes.Content), nextMID, tok, nil, []byte("S")))
 		case "cancel":
 			cancel()
 			hooks.WaitFor(conns.WD, func() bool { poll(); return ret != "none" })
@@ -244,11 +247,12 @@ func runOne(st Stim) Trace {
 	curEv = len(steps) + 1
 	curTick = 1000
 	mu.Unlock()
-	u.CC.CheckExpirations(base.Add(1000 * time.Second))
+	u.cc.CheckExpirations(base.Add(1000 * time.Second))
+	u.settle()
 	tr.Final = snap(Act{"end", 0})
 	// a run that took a sizeable part of a real-time deadline says nothing about the virtual schedule
 	tr.Slow = dlSec > 0 && dlSec < 100 && time.Since(began) > time.Duration(dlSec)*time.Second/3
-	tr.Errs = u.Errs.Len()
+	tr.Errs = u.errs()
 	return tr
 }
 
